@@ -418,7 +418,7 @@ def c07(ctx):
     q = ctx.quick
     for pi, pt in ((3, 2), (2, 3)) if q else ((3, 2), (2, 3), (4, 4), (1, 5)):
         M.tlc_model(ctx, "Beat", BEAT_CFG % (pi, pt, 16 if q else 24, "{99, 0, 1, 2, 3, 4}"), "beat_%d_%d" % (pi, pt))
-    evs = eng_run(ctx, ["life"] if not q else [], 120, 1500, ("beat",))
+    evs = eng_run(ctx, ["life"] if not q else [], 120, 1500, ("beat", "direct"))
     ctx.assumptions = ENG_ASSUME + ["a pong accepted at the very instant of the deadline: both outcomes (and both at once) are admitted",
                                     "'the server sends a ping' is timed by the packetCreate event of the ping"]
     return M.finish(ctx, rule="timed heartbeat model Beat.tla checked exhaustively over a grid of pong delays incl. the deadline; real sessions "
@@ -426,7 +426,7 @@ def c07(ctx):
 eng_prop("C08", ["upg"], extra=("direct",), nq=90)
 eng_prop("C11", ["poll"], extra=("direct",), nq=90)
 eng_prop("C12", ["life", "poll"], extra=("grace", "direct"))
-eng_prop("C18", ["flow"], extra=("reent",), nq=90)
+eng_prop("C18", ["flow"], extra=("reent", "direct"), nq=90)
 
 
 # ----------------------------------------------------------------------- C05
